@@ -4,11 +4,11 @@ package main
 
 import (
 	"bytes"
-	"os"
 	"encoding/csv"
 	"encoding/hex"
 	"io"
 	"math"
+	"os"
 	"strings"
 
 	"github.com/kishyassin/goframe/dataframe"
@@ -17,7 +17,9 @@ import (
 var csvFieldAlpha = []string{"a", "b", "0", "1", "1.5", "-2", "1e3", "1e400", "1e-400", "1_0", "0x1p-2", "0x10", " 7 ", "7 ",
 	"Inf", "-inf", "nan", "+Inf", "infinity", "", " ", "x y", "a,b", "say \"hi\"", "line\nbreak", "cr\rhere", "crlf\r\nx",
 	"  9", " 1", "é", "漢", "\\.", "\t2", "00", ".5", "5.", "--1", "1e", "true", "<nil>", "+1", "1,5",
-	"-0", " -0 ", "-00", "-0.0", "+0", "-0e5", "#c", "#", "# 1", ";x", "//x"}
+	"-0", " -0 ", "-00", "-0.0", "+0", "-0e5", "#c", "#", "# 1", ";x", "//x",
+	// blanks of every kind strings.TrimSpace knows, as the outermost byte(s) of numbers and of text
+	"\v2.5", "3.5\f", "\u00a04", "5\u0085", "\u20036", "\vx\f", "\u00a0", "\f", "y\v"}
 
 func csvQuote(s string) string { return `"` + strings.ReplaceAll(s, `"`, `""`) + `"` }
 
